@@ -17,6 +17,7 @@ import Reamber.Lemmas.TimingD22
 import Reamber.Lemmas.TimingClosedForm
 import Reamber.Lemmas.TimingInverse
 import Reamber.Lemmas.TimingReseat
+import Reamber.Lemmas.FindLcmMore
 import Reamber.Props.C11
 import Reamber.Drv.C11
 import Reamber.Spec.Timing
